@@ -110,12 +110,14 @@ func specParsed(p *FrameParser) bool {
 //@ func ParseTCPFirstBytes
 //@ safety C09
 //@ ensures[C09.tcp8.err]   (ret1 != nil) == (len(buffer) < 8)
+//@ ensures[C09.tcp8.class] ret1 != nil ==> noRepoErr(ret1)
 //@ ensures[C01.tcp8.val]   ret1 == nil ==> int(ret0.SrcPort) == int(be16(buffer, 0)) && int(ret0.DstPort) == int(be16(buffer, 2)) && int(ret0.Seq) == int(be32(buffer, 4))
 //@ modifies nothing
 
 //@ func ParseUDPFirstBytes
 //@ safety C09
 //@ ensures[C09.udp8.err]   (ret1 != nil) == (len(buffer) < 8)
+//@ ensures[C09.udp8.class] ret1 != nil ==> noRepoErr(ret1)
 //@ ensures[C01.udp8.val]   ret1 == nil ==> int(ret0.SrcPort) == int(be16(buffer, 0)) && int(ret0.DstPort) == int(be16(buffer, 2)) && int(ret0.Length) == int(be16(buffer, 4)) && int(ret0.Checksum) == int(be16(buffer, 6))
 //@ modifies nothing
 
@@ -153,7 +155,7 @@ func specParsed(p *FrameParser) bool {
 //@ requires[pre.nonnil]    p != nil
 //@ requires[pre.parsed]    specParsed(p)
 //@ ensures[C09.icmpinfo.kind] ret1 == nil ==> p.Layers[1] == layers.LayerTypeICMPv4 || p.Layers[1] == layers.LayerTypeICMPv6
-//@ ensures[C09.icmpinfo.class] ret1 != nil ==> !chain(ret1, *common.ReceiveProbeNoPktError) && !chain(ret1, *common.BadPacketError)
+//@ ensures[C09.icmpinfo.class] ret1 != nil ==> noRepoErr(ret1)
 //@ ensures[C01.icmpinfo.outer] ret1 == nil ==> ret0.IPPair.SrcAddr == SpecOuterSrc(p) && ret0.IPPair.DstAddr == SpecOuterDst(p)
 //@ ensures[C01.icmpinfo.q4]   ret1 == nil && p.Layers[1] == layers.LayerTypeICMPv4 ==> SpecQ4ok(p.ICMP4.Payload) && ret0.ICMPPair.SrcAddr == SpecQ4Src(p.ICMP4.Payload) && ret0.ICMPPair.DstAddr == SpecQ4Dst(p.ICMP4.Payload) && ret0.WrappedPacketID == SpecQ4ID(p.ICMP4.Payload)
 //@ ensures[C01.icmpinfo.pay4] ret1 == nil && p.Layers[1] == layers.LayerTypeICMPv4 ==> fresh(ret0.Payload) && len(ret0.Payload) <= len(p.ICMP4.Payload) - SpecQ4IHL(p.ICMP4.Payload) && forall(i, 0, len(ret0.Payload), ret0.Payload[i] == p.ICMP4.Payload[SpecQ4IHL(p.ICMP4.Payload)+i])
